@@ -269,7 +269,7 @@ func (eng *Engine) verifyFunc(p *packages.Package, key string, safetyOnly bool) 
 	u := &Unit{eng: eng, pkg: p, info: p.TypesInfo, fset: eng.fset, pkgName: p.Types.Name(), key: key, decl: fd, obj: obj,
 		sig: obj.Type().(*types.Signature), c: newCtx(mode == "bv", p.Types), ct: ct, cs: cs, nameCount: map[string]int{},
 		paramSyms: map[string]string{}, unfolded: map[string]bool{}, exprCount: map[string]int{}, calledContracts: map[string]bool{},
-		usedLemmas: map[string]bool{}, externalCalls: map[string]bool{}, loopsSeen: map[int]bool{}, sliceDefs: map[string]string{}, lenHints: map[string]int64{}, rangeVars: map[int]*types.Var{},
+		usedLemmas: map[string]bool{}, externalCalls: map[string]bool{}, loopsSeen: map[int]bool{}, sliceDefs: map[string]string{}, lenHints: map[string]int64{}, rangeVars: map[int]*types.Var{}, visitedVars: map[int]*types.Var{},
 		entryVals: map[*types.Var]Term{}}
 	res := &UnitResult{Pkg: p.Types.Name(), Key: key, Mode: mode, Contracted: ct != nil, Ctx: u.c, unit: u}
 	if fd.Body == nil {
@@ -360,6 +360,11 @@ func (u *Unit) run() {
 	// entry snapshot (before requires are assumed, heaps are initial)
 	u.entry = st.clone()
 	if u.ct != nil {
+		for _, cl := range append(append([]Clause{}, u.ct.Requires...), u.ct.Ensures...) {
+			if strings.Contains(cl.Text, "held(") {
+				u.mentionsHeld = true
+			}
+		}
 		env := &SpecEnv{u: u, st: st, old: u.entry, names: map[string]Term{}, cs: u.cs, pkg: u.pkg.Types, own: true, scopePos: u.bodyPos}
 		for _, r := range u.ct.Requires {
 			st.assume(env.evalBool(r.Expr))
